@@ -198,14 +198,13 @@ APPEND_BODY:
 	res.bodyWritten += l
 	res.bodyBuffer = mempool.Append(res.bodyBuffer, data...)
 	if cl > 0 && len(*res.bodyBuffer) >= maxPacketSize {
-		l, err = conn.Write(*res.bodyBuffer)
+		_, err = conn.Write(*res.bodyBuffer)
 		if err != nil {
 			mempool.Free(res.bodyBuffer)
 			res.bodyBuffer = nil
-		} else {
-			*res.bodyBuffer = (*res.bodyBuffer)[0:0]
+			return 0, err
 		}
-		return l, err
+		*res.bodyBuffer = (*res.bodyBuffer)[0:0]
 	}
 
 	return l, nil
